@@ -321,6 +321,19 @@ def task_obtuse(pr, repo):
             if p is None or len(rs) != nb + 1:
                 ctx.oblige('OB[%s %d bonds]: one hydrogen is placed from %d unit bond vectors' % (meth, nb, nb), False)
                 return
+            # the code may normalise the bond vectors in any order: match each rescale(1.0) call to its bond syntactically
+            import z3 as _z3
+
+            def same(u, d):
+                return all(_z3.is_true(_z3.simplify(to_bool(u[j] == d[j]))) if isinstance(u[j] == d[j], Sym) else bool(u[j] == d[j])
+                           for j in range(3))
+            ds = [[nbs[i].attrs[c] - at.attrs[c] for c in 'xyz'] for i in range(nb)]
+            order = []
+            for i in range(nb):
+                hit = [j for j in range(nb) if j not in order and same(rs[j]['v'], ds[i])]
+                order.append(hit[0] if hit else None)
+            if None not in order:
+                rs = [rs[j] for j in order] + rs[nb:]
             us = [r['r'] for r in rs[:nb]]            # unit vectors along the existing bonds (contract of rescale(1.0))
             fin = rs[nb]
             dot = lambda a, b: a[0] * b[0] + a[1] * b[1] + a[2] * b[2]     # noqa
